@@ -1,6 +1,6 @@
 """event kinds consumed by each wire/system trace specification"""
 TX_KINDS = ["reset", "rxf", "txf", "dg", "rxd", "app_open", "panic", "stall"]
-FLOW_KINDS = ["reset", "txp", "txf", "rxp", "rxf", "conn_closed", "sim_end", "pacing", "panic", "stall"]
+FLOW_KINDS = ["reset", "tp", "txp", "txf", "rxp", "rxf", "conn_closed", "sim_end", "pacing", "panic", "stall"]
 PIPE_KINDS = ["reset", "app_send_call", "app_finish", "rxf", "app_recv", "app_eos", "panic", "stall"]
 
 
@@ -8,9 +8,9 @@ def plan(ctx, base):
     """(family, count) list scaled by tier"""
     mul = 1 if ctx.quick else 12
     return [(f, n * mul) for f, n in base]
-RECOVERY_KINDS = ["reset", "txp", "txf", "packet_sent", "ack_range", "packet_lost", "metrics", "space_discarded", "active_path", "panic", "stall"]
-RECOVERY_ONLY = {"txf": '"ty":"conn_close"'}
-AMP_KINDS = ["reset", "datagram_received", "datagram_sent", "rxp", "txp", "txf", "endpoint_datagram_dropped", "endpoint_packet_sent", "dg", "panic", "stall"]
+RECOVERY_KINDS = ["reset", "txp", "txf", "packet_sent", "ack_range", "packet_lost", "metrics", "space_discarded", "active_path", "packet_received", "packet_dropped", "sim_end", "panic", "stall"]
+RECOVERY_ONLY = {"txf": '"ty":"conn_close"', "packet_received": '"sp":"retry"', "packet_dropped": '"reason":"Retry'}
+AMP_KINDS = ["reset", "datagram_received", "datagram_sent", "rxp", "txp", "txf", "endpoint_datagram_dropped", "endpoint_packet_sent", "dg", "inject", "panic", "stall"]
 CID_KINDS = ["reset", "tp", "txf", "rxf", "panic", "stall"]
 CID_ONLY = {"txf": "_cid", "rxf": "_cid"}
 LIVE_KINDS = ["reset", "rxp", "txp", "metrics", "conn_closed", "app_send_call", "app_send", "app_finish", "app_send_done", "app_eos", "app_send_err", "app_recv_err", "app_reset", "app_stop", "app_timeout", "sim_end", "panic", "stall"]
